@@ -710,9 +710,11 @@ class _PairsClassifierMixin(BaseMetricLearner, ClassifierMixin):
       # (see a more detailed discussion in test_calibrate_threshold_extreme)
       return self
 
+    # we keep every threshold: the points that `roc_curve` drops by default
+    # (collinear in ROC space) can be the only ones that satisfy `min_rate`
     fpr, tpr, thresholds = roc_curve(y_valid,
                                      self.decision_function(pairs_valid),
-                                     pos_label=1)
+                                     pos_label=1, drop_intermediate=False)
     # here the thresholds are decreasing
     fpr, tpr, thresholds = fpr, tpr, thresholds
 
